@@ -10,6 +10,7 @@ from habutax.forms import available_forms
 
 PID = 'C13'
 NAME_RE = re.compile(r'----\[ (\S+) \]----')
+QUOTE_RE = re.compile(r"^ \* (?:Instance '([^']*)' of )?(.*), line '([^']*)'$", re.M)
 
 
 def _hist_work(arg):
@@ -19,6 +20,20 @@ def _hist_work(arg):
     r0, asked0 = e3.run_return(year, base, assign)
     answers = {n: a for n, a, alts in asked0}
     errs = []
+    # (form description, instance, line base name) of every line that read an input while it was absent, taken from the
+    # attempt log of the SAME session (the CLI run uses instrumented subclasses of the year's forms)
+    descs = {C.form_name: f'{C.description}: {C.long_description}' for C in available_forms[year]}
+    log = []
+
+    def readers_of(n):
+        out = set()
+        for a in log:
+            for kind, name, st_, val in a.reads:
+                if kind == 'i' and name == n and st_ == 'MissingInput':
+                    sec, base_name = a.line.split('.')
+                    fn, inst = hform.name_and_instance(sec)
+                    out.add((descs[fn], inst, base_name))
+        return out
     from hv.props.c20 import _Specs
     specs = _Specs(year)
     with cli.workdir() as d:
@@ -37,13 +52,25 @@ def _hist_work(arg):
                 return cli.Interrupt(EOFError())
             n = m.group(1)
             asked1.append(n)
+            # the lines quoted in the prompt text must be lines that read this input while it was absent
+            for q in QUOTE_RE.findall(prompt):
+                inst, desc, line = q
+                if (desc, inst or None, line) not in readers_of(n):
+                    errs.append(('quoted-line-wrong', f'prompt for {n} quotes {("instance " + inst + " of ") if inst else ""}{desc!r} line {line!r}, which never read it while absent'))
             if len(asked1) > 3 * len(answers) + 50:
                 return cli.Interrupt(EOFError())
             if n in assign:
                 return assign[n]
             return base.answer(specs.get(n))
         sol1 = os.path.join(d, 's1.ini')
-        res1 = cli.solve_cli(year, base.requested, path, script=script, prompt_missing=True, writeback=True, solution=sol1)
+        import habutax
+        from hv import world
+        saved_forms = available_forms[year]
+        habutax.forms.available_forms[year] = world.instrumented(saved_forms, log)
+        try:
+            res1 = cli.solve_cli(year, base.requested, path, script=script, prompt_missing=True, writeback=True, solution=sol1)
+        finally:
+            habutax.forms.available_forms[year] = saved_forms
         for n in asked1:
             if n in before:
                 errs.append(('asked-supplied', f'{n} was asked for although the input file supplies it (start={start})'))
